@@ -447,13 +447,17 @@ type grCase struct {
 	Events   []vfBytes `json:"events"`   // every event of the room, creation order
 	Sets     [][]int   `json:"sets"`     // state sets (indices into Events)
 	Rejected []int     `json:"rejected"` // indices of events the auth rules reject
+	// AuthChainsOnly: the auth events handed to the resolvers are the auth chains proper (the events
+	// somebody cites as an auth event), not every event of the room: a state event nobody cites - a topic,
+	// the latest power levels - is then NOT among them
+	AuthChainsOnly bool `json:"auth_chains_only,omitempty"`
 }
 
 func grGenCase(t *rapid.T, version string, minEvents, maxEvents int) grCase {
 	opts := grOpts{Merges: rapid.IntRange(0, 2).Draw(t, "allowMerges") > 0, PLHeavy: rapid.IntRange(0, 2).Draw(t, "plHeavyMode") == 0,
 		OddShapes: rapid.IntRange(0, 2).Draw(t, "oddShapes") == 0}
 	r := grGenWith(t, version, minEvents, maxEvents, opts)
-	c := grCase{Version: version}
+	c := grCase{Version: version, AuthChainsOnly: rapid.IntRange(0, 2).Draw(t, "authChainsOnly") == 0}
 	for _, e := range r.Events {
 		c.Events = append(c.Events, vfBytes(jplain(e.Tree)))
 		if e.Rejected {
@@ -503,15 +507,16 @@ func grGenCase(t *rapid.T, version string, minEvents, maxEvents int) grCase {
 
 // grParsed is a grCase with PDUs.
 type grParsed struct {
-	PDUs     []PDU
-	Trees    []jv
-	Sets     [][]PDU
-	Rejected map[string]bool
-	ByID     map[string]PDU
+	AuthChainsOnly bool
+	PDUs           []PDU
+	Trees          []jv
+	Sets           [][]PDU
+	Rejected       map[string]bool
+	ByID           map[string]PDU
 }
 
 func grParse(c grCase) (*grParsed, error) {
-	p := &grParsed{Rejected: map[string]bool{}, ByID: map[string]PDU{}}
+	p := &grParsed{Rejected: map[string]bool{}, ByID: map[string]PDU{}, AuthChainsOnly: c.AuthChainsOnly}
 	for _, raw := range c.Events {
 		t, err := evTree(raw)
 		if err != nil {
